@@ -17,6 +17,7 @@ Literal-statement carve-outs, stated here:
   `cpc_offset_inv` therefore says `min 56 …`, and `cpc_no_saturation` gives the exact form below that bound.
 -/
 import DSProofs.Lemmas.CpcCount
+import DSProofs.Lemmas.CpcUnionPerm
 import DSModel.Cpc.Input
 import DSModel.Cpc.Estimator
 namespace DS.Cpc
@@ -179,6 +180,99 @@ theorem icon_fun_of_lgk_c (E : EstTables) (s₁ s₂ : Sketch) (h₁ : s₁.merg
   intro kappa
   simp [lowerBound, upperBound, estimate, h₁, h₂, hk, hc]
 
+/-! ## Union
+
+Inputs of a union are *valid sketches*: `ValidInput (s, xs)` says `s` is a correct representation (`Inv`) of the
+coupon stream `xs` of codes on `2^s.lgK` rows.  Every sketch reachable by updates is one (`valid_of_run`), and so is
+every result of `get_result` (`cpc_union_spec`), so unions of unions are covered. -/
+
+def ValidInput (p : Sketch × List Nat) : Prop := Inv p.1 p.2 ∧ ∀ x ∈ p.2, x < 64 * 2^p.1.lgK
+
+theorem valid_of_run (T : HipTables) (lgK : Nat) (rcs : List Nat) (h : ∀ rc ∈ rcs, rc < 64 * 2^lgK) :
+    ValidInput (run T lgK rcs, rcs) :=
+  ⟨inv_run T lgK rcs h, by rw [run_lgK]; exact h⟩
+
+/-- **Union specification.**  For any initial lg_k and any list of valid input sketches with any lg_k values:
+(1) the union's lg_k is `unionLgK` = the minimum over the initial lg_k and the lg_k of the non-empty inputs;
+(2) provided the result's offset is at most 56 (see header), `get_result` is a valid sketch (`Inv`: exact matrix,
+exact count, window/offset/fic consistent with its coupon count, every internal check passes) of the concatenation
+of the inputs' streams with rows folded to that lg_k (`row &&& (k-1)`), and has that lg_k. -/
+theorem cpc_union_spec (T : HipTables) (lgK0 : Nat) (inputs : List (Sketch × List Nat)) (hin : ∀ p ∈ inputs, ValidInput p) :
+    let u := unionRun T lgK0 (inputs.map Prod.fst)
+    let L := unionLgK lgK0 (inputs.map Prod.fst)
+    let ys := inputs.flatMap (fun p => p.2.map (foldRc L))
+    u.lgK = L ∧
+    (L ≤ lgK0 ∧ (∀ p ∈ inputs, p.1.numCoupons ≠ 0 → L ≤ p.1.lgK) ∧
+      (L = lgK0 ∨ ∃ p ∈ inputs, p.1.numCoupons ≠ 0 ∧ L = p.1.lgK)) ∧
+    (determineCorrectOffset L (distinct ys).length ≤ 56 → Inv (getResult u) ys ∧ (getResult u).lgK = L) := by
+  intro u L ys
+  have h := uinv_foldl T inputs hin (unionNew lgK0) [] (uinv_new lgK0)
+  simp only [List.map_nil, List.nil_append] at h
+  obtain ⟨hl, hu⟩ := h
+  have hl' : u.lgK = L := hl
+  have hu' : UInv u ys := hu
+  have hspec := foldl_lgKAfter_spec lgK0 (inputs.map Prod.fst)
+  refine ⟨hl', ⟨foldl_lgKAfter_le _ _, ?_, ?_⟩, ?_⟩
+  · intro p hp hne
+    exact hspec.1 p.1 (List.mem_map_of_mem hp) hne
+  · rcases hspec.2 with h1 | ⟨s, hs, hne, he⟩
+    · exact Or.inl h1
+    · obtain ⟨p, hp, rfl⟩ := List.mem_map.1 hs
+      exact Or.inr ⟨p, hp, hne, he⟩
+  · intro h56
+    have := inv_getResult u ys hu' (by rw [hl']; exact h56)
+    exact ⟨this.1, by rw [this.2, hl']⟩
+
+/-- **The result matrix is the OR of the row-folded input matrices**: bit (r, c) of the result is set iff some
+input has bit (r', c) set in a row r' that folds onto r. -/
+theorem cpc_union_matrix_or (T : HipTables) (lgK0 : Nat) (inputs : List (Sketch × List Nat)) (hin : ∀ p ∈ inputs, ValidInput p)
+    (h56 : determineCorrectOffset (unionLgK lgK0 (inputs.map Prod.fst))
+      (distinct (inputs.flatMap (fun p => p.2.map (foldRc (unionLgK lgK0 (inputs.map Prod.fst)))))).length ≤ 56)
+    (r c : Nat) (hr : r < 2^(unionLgK lgK0 (inputs.map Prod.fst))) (hc : c < 64) :
+    ((buildBitMatrix (getResult (unionRun T lgK0 (inputs.map Prod.fst)))).getD r 0).testBit c = true ↔
+      ∃ p ∈ inputs, ∃ r', r' < 2^p.1.lgK ∧ r' % 2^(unionLgK lgK0 (inputs.map Prod.fst)) = r ∧
+        ((buildBitMatrix p.1).getD r' 0).testBit c = true := by
+  obtain ⟨_, _, hres⟩ := cpc_union_spec T lgK0 inputs hin
+  obtain ⟨hinv, hlg⟩ := hres h56
+  rw [buildBitMatrix_getD _ r (by rw [hlg]; exact hr), testBit_rowPattern _ hinv.rep r c hc,
+    hinv.bits r c (by rw [hlg]; exact hr) hc, List.mem_flatMap]
+  constructor
+  · rintro ⟨p, hp, hm⟩
+    obtain ⟨x, hx, h1, h2⟩ := (mem_map_foldRc _ _ r c hc).1 hm
+    have hv := (hin p hp).2 x hx
+    refine ⟨p, hp, x / 64, by omega, h1, ?_⟩
+    rw [buildBitMatrix_getD _ _ (by omega), testBit_rowPattern _ (hin p hp).1.rep _ c hc,
+      (hin p hp).1.bits _ c (by omega) hc]
+    rw [show x / 64 * 64 + c = x by omega]; exact hx
+  · rintro ⟨p, hp, r', hr', hmod, hb⟩
+    rw [buildBitMatrix_getD _ _ hr', testBit_rowPattern _ (hin p hp).1.rep _ c hc,
+      (hin p hp).1.bits _ c hr' hc] at hb
+    refine ⟨p, hp, (mem_map_foldRc _ _ r c hc).2 ⟨r' * 64 + c, hb, ?_, ?_⟩⟩
+    · rw [rc_div r' c hc]; exact hmod
+    · exact rc_mod r' c hc
+
+/-- **Order independence**: any permutation of the inputs gives a result with the same lg_k, coupon count, table,
+window, offset, first interesting column and merged flag (everything but the unobserved HIP registers). -/
+theorem cpc_union_perm_invariant (T : HipTables) (lgK0 : Nat) (inputs inputs' : List (Sketch × List Nat))
+    (hp : inputs.Perm inputs') (hin : ∀ p ∈ inputs, ValidInput p) :
+    sameContent (getResult (unionRun T lgK0 (inputs.map Prod.fst))) (getResult (unionRun T lgK0 (inputs'.map Prod.fst))) := by
+  have hin' : ∀ p ∈ inputs', ValidInput p := fun p hp' => hin p (hp.mem_iff.2 hp')
+  have h := uinv_foldl T inputs hin (unionNew lgK0) [] (uinv_new lgK0)
+  have h' := uinv_foldl T inputs' hin' (unionNew lgK0) [] (uinv_new lgK0)
+  simp only [List.map_nil, List.nil_append] at h h'
+  have hL : (inputs.map Prod.fst).foldl lgKAfter (unionNew lgK0).lgK = (inputs'.map Prod.fst).foldl lgKAfter (unionNew lgK0).lgK := by
+    apply List.Perm.foldl_eq' (hp.map Prod.fst)
+    intro x _ y _ z
+    unfold lgKAfter
+    by_cases hx : x.numCoupons = 0 <;> by_cases hy : y.numCoupons = 0 <;> simp [hx, hy] <;> omega
+  apply getResult_congr _ _ _ _ h.2 h'.2
+  · show (unionRun T lgK0 (inputs.map Prod.fst)).lgK = (unionRun T lgK0 (inputs'.map Prod.fst)).lgK
+    unfold unionRun
+    rw [h.1, h'.1, hL]
+  · intro a
+    rw [hL]
+    exact (hp.flatMap_right _).mem_iff
+
 /-! Non-vacuity: a concrete stream on lg_k = 4 that passes through SPARSE → HYBRID (promotion at C = 2) with
 duplicates, coupons below / inside / above the window. -/
 def exT : HipTables := { invPow2 := fun _ => 0.0, kxpByte := fun _ => 0.0 }
@@ -187,5 +281,22 @@ example : ∀ rc ∈ exStream, rc < 64 * 2^4 := by decide
 example : (run exT 4 exStream).numCoupons = 5 ∧ (run exT 4 exStream).window ≠ [] ∧ (run exT 4 exStream).offset = 0
     ∧ (run exT 4 exStream).table = [0 * 64 + 20, 3 * 64 + 9] := by decide
 example : (run exT 4 (exStream.take 2)).numCoupons = 1 ∧ (run exT 4 (exStream.take 2)).window = [] := by decide
+
+/-! Non-vacuity for the union: three inputs of lg_k 6, 4, 5 (empty, sparse and hybrid ones), union lg_k 7. -/
+def exIn1 : List Nat := [40 * 64 + 3, 41 * 64 + 9, 63 * 64 + 0]       -- lg_k 6
+def exIn2 : List Nat := [2 * 64 + 1, 2 * 64 + 1, 9 * 64 + 12, 8 * 64 + 3]  -- lg_k 4: 3 coupons -> HYBRID; (8,3) also is the fold of (40,3)
+def exInputs : List (Sketch × List Nat) := [(run exT 6 exIn1, exIn1), (run exT 5 [], []), (run exT 4 exIn2, exIn2)]
+example : ∀ p ∈ exInputs, ValidInput p := by
+  intro p hp
+  simp only [exInputs, List.mem_cons, List.mem_nil_iff, or_false] at hp
+  rcases hp with rfl | rfl | rfl
+  · exact valid_of_run exT 6 exIn1 (by decide)
+  · exact valid_of_run exT 5 [] (by decide)
+  · exact valid_of_run exT 4 exIn2 (by decide)
+example : unionLgK 7 (exInputs.map Prod.fst) = 4 ∧
+    (getResult (unionRun exT 7 (exInputs.map Prod.fst))).numCoupons = 5 ∧
+    (getResult (unionRun exT 7 (exInputs.map Prod.fst))).window ≠ [] ∧
+    (getResult (unionRun exT 7 (exInputs.reverse.map Prod.fst))).table = (getResult (unionRun exT 7 (exInputs.map Prod.fst))).table := by
+  decide +kernel
 
 end DS.Cpc
